@@ -210,9 +210,16 @@ def run_engine_worker(args):
     for k, v in (opts.get("env") or {}).items():
         env[k] = v.replace("{out}", outdir)
     rc, out = sh(cmd, timeout=3600, env=env)
+    if rc != 0:
+        # a worker killed from outside (OOM killer, loaded machine) exits non-zero without a word; a crash
+        # that belongs to the input recurs, so run the same worker once more before calling it a failure
+        first = f"[first attempt rc={rc}: {out[-400:]}] "
+        rc, out = sh(cmd, timeout=3600, env=env)
+        out = first + out
     res = {"engine": engine, "seed": seed, "dir": outdir, "rc": rc, "harness_out": out[-3000:], "replay": replay}
     if rc != 0:
         res["error"] = "harness-failed"
+        res["harness_out"] = f"rc={rc} cmd={' '.join(cmd)} env={env} :: " + out[-3000:]
         return res
     with open(os.path.join(outdir, "cmds.txt")) as fi, open(os.path.join(outdir, "model.txt"), "w") as fo:
         p = subprocess.run([os.path.join(LEAN, ".lake", "build", "bin", "driver"), engine], stdin=fi, stdout=fo,
@@ -378,7 +385,7 @@ def main():
     dist, samples, rules, exh = {}, [], [], []
     for r in results:
         if "error" in r:
-            violations.append(("harness", r["engine"], f"{r['error']}: {r.get('harness_out','')[-600:]} {r.get('driver_err','')}", [], "replay"))
+            violations.append(("harness", r["engine"], f"{r['error']}: {r.get('harness_out','')[:900]} {r.get('driver_err','')}", [], "replay"))
             continue
         st = r["stats"]
         tot["traces"] += r["traces"]
